@@ -156,6 +156,10 @@ def evaluate(n, pt, memo=None):
             name = x[1]
             if name == "sqrt":
                 memo[x] = isqrt_frac(memo[x[2]])
+            elif name == "lossy_f32":
+                # a narrowing conversion is not the identity: perturb so that identities which
+                # hold only for exact arithmetic are refuted
+                memo[x] = memo[x[2]] * Fraction(1000003, 1000000)
             elif name == "abs":
                 v = memo[x[2]]
                 memo[x] = v if _sgn(v) >= 0 else -v
